@@ -197,13 +197,17 @@ impl Disassemble for dr::Module {
 fn disas_constant(inst: &dr::Instruction, type_tracker: &tracker::TypeTracker) -> String {
     debug_assert_eq!(inst.class.opcode, spirv::Op::Constant);
     debug_assert_eq!(inst.operands.len(), 1);
-    let literal_type = type_tracker.resolve(inst.result_type.unwrap());
-    match inst.operands[0] {
-        LiteralBit32(value) => disas_instruction(inst, " ", |_| {
-            disas_literal_bit_operand(value, &literal_type.unwrap())
+    // Without a known numeric result type, the literal is shown as the raw bit pattern.
+    let literal_type = match inst.result_type.and_then(|t| type_tracker.resolve(t)) {
+        Some(literal_type) => literal_type,
+        None => return inst.disassemble(),
+    };
+    match inst.operands.first() {
+        Some(&LiteralBit32(value)) => disas_instruction(inst, " ", |_| {
+            disas_literal_bit_operand(value, &literal_type)
         }),
-        LiteralBit64(value) => disas_instruction(inst, " ", |_| {
-            disas_literal_bit_operand(value, &literal_type.unwrap())
+        Some(&LiteralBit64(value)) => disas_instruction(inst, " ", |_| {
+            disas_literal_bit_operand(value, &literal_type)
         }),
         _ => inst.disassemble(),
     }
